@@ -46,7 +46,7 @@ var initAllow = map[string]bool{
 	"strconv": true, "sort": true, "path": true, "path/filepath": true, "bytes": true, "bufio": true,
 	"unicode/utf8": true, "syscall": true, "internal/oserror": true, "math": true, "slices": true,
 	"maps": true, "cmp": true, "iter": true, "internal/bytealg": true, "internal/filepathlite": true,
-	"internal/stringslite": true, "time": false, "os/exec": false, "unicode": true,
+	"internal/stringslite": true, "time": true, "os/exec": false, "unicode": true,
 }
 
 func allowInit(p *ssa.Package) bool {
